@@ -26,6 +26,7 @@ type PathOpts struct {
 	SolverTimeoutMs int
 	SchedExplore    bool
 	PreemptBudget   int
+	SchedFilter     string
 	MapOrderExplore bool
 	LogEvents       bool
 	Concrete        []InputRec // if non-nil, run concretely with these inputs
@@ -162,6 +163,7 @@ func (m *Machine) run(body func(), name string, prefix []int, opts PathOpts, isI
 	c.sched = newScheduler()
 	c.sched.explore = opts.SchedExplore
 	c.sched.preemptBudget = opts.PreemptBudget
+	c.sched.filter = opts.SchedFilter
 	c.sched.logEvents = opts.LogEvents
 	if len(prefix) > 0 {
 		if opts.Model != nil {
